@@ -14,6 +14,7 @@ type vgen struct {
 	badUTF8  bool // allow invalid UTF-8 in strings of pulsar messages
 	nilElems bool // allow nil list elements / map values / oneof payloads
 	big      bool // allow the rare 16k strings
+	unkDeep  bool // attach unknown records to nested messages too (field-less ones included)
 }
 
 var i64b = []int64{0, 1, -1, 2, 127, 128, -128, -129, 16383, 16384, 1<<21 - 1, 1 << 21, 1<<28 - 1, 1 << 28, math.MaxInt32, math.MinInt32, 1 << 31, 1<<35 - 1, 1 << 35, 1 << 42, 1 << 49, 1<<56 - 1, 1 << 56, 1 << 62, math.MaxInt64, math.MinInt64, math.MinInt64 + 1, -(1 << 31) - 1}
@@ -192,6 +193,11 @@ func (g *vgen) msg(mi *msgInfo, depth int, density int) *V {
 			continue
 		}
 		out.L[i] = gg.field(fi, depth)
+	}
+	if g.unkDeep && mi.pulsar && (g.r.intn(3) == 0 || len(mi.fields) == 0) {
+		for j := g.r.intn(2); j >= 0; j-- {
+			out.Unk = append(out.Unk, genUnknownFor(g.r, mi)...)
+		}
 	}
 	return out
 }
